@@ -90,6 +90,15 @@ func c19Expressions(thorough bool) []c19Expr {
 				add("a[*].[let $x = "+b1+" in let $y = "+b2+" in "+body+"]", "nested-inside-projection/"+t)
 				add("map(&(let $x = "+b1+" in let $y = "+b2+" in "+body+"), a)", "nested-inside-expref/"+t)
 			})
+			// two lets side by side: the second one sees neither the first one's names nor its values (a scope recycled
+			// from the first let would)
+			for _, body := range []string{"$x", "[$x, $y]", "a[*].[$x]", "a[?b == $x]", "map(&$x, a)"} {
+				add("[let $x = "+b1+" in $x, let $y = "+b2+" in "+body+"]", "sibling-lets/"+body)
+				add("let $x = "+b1+" in [let $x = "+b2+" in $x, let $y = `0` in "+body+"]", "sibling-lets-under-outer/"+body)
+				add("a[*].[let $x = "+b1+" in $x, let $y = "+b2+" in "+body+"]", "sibling-lets-in-projection/"+body)
+				add("[let $x = "+b1+", $y = "+b2+" in $y, let $y = `0` in "+body+"]", "sibling-lets-two-names/"+body)
+				add("(let $x = "+b1+" in $x) | (let $y = "+b2+" in "+body+")", "sibling-lets-piped/"+body)
+			}
 			if !thorough {
 				continue
 			}
